@@ -21,6 +21,9 @@ type family interface {
 	feed(x *exec, line []byte)
 	// labels lists the cfg labels (for the evidence).
 	labels() []string
+	// entries lists the entry points for the "results stay valid" passes
+	// (retain.go); called after begin.
+	entries() []entry
 }
 
 func byteClass(c byte) string {
@@ -96,11 +99,21 @@ func runCase(x *exec, f family, caseSeed uint64, idx int) {
 	r := newRng(caseSeed)
 	x.curCase = idx
 	f.begin(x, r)
+	ents := f.entries()
+	var concLines [][]byte
 	feed := func(mut string, line []byte) {
 		x.curMut = mut
 		x.inputs++
 		f.feed(x, line)
+		// results-stay-valid pass: every well-formed line and every 4th other input
+		if strings.HasPrefix(mut, "valid") || x.inputs%4 == 0 {
+			x.retainPass(ents, line)
+			if len(line) < 4096 && (len(concLines) < 12 || (len(concLines) < 40 && x.inputs%28 == 0)) {
+				concLines = append(concLines, append([]byte(nil), line...))
+			}
+		}
 	}
+	defer func() { x.concPass(ents, concLines) }()
 	if idx%8 == 0 {
 		for _, h := range commonHostile {
 			feed("hostile", h)
